@@ -177,7 +177,7 @@ def execute(sc, ctx):
             size *= len(as_list(s))
         ctx.check(len(got) == size == len(want), "product-size", f"{where}: {len(got)} combinations, expected {size}")
         for i, (g, w) in enumerate(zip(got, want)):
-            ctx.check(isinstance(g, dict) and list(g) == [n for n, _ in decl], "combination-keys",
+            ctx.check(isinstance(g, dict) and sorted(g) == sorted(n for n, _ in decl), "combination-keys",
                       lambda: f"{where}: combination {i} has keys {list(g)} expected {[n for n, _ in decl]}")
             for k in w:
                 ctx.check(eq(g[k], w[k]), "product-order-or-value",
@@ -219,7 +219,7 @@ def execute(sc, ctx):
             second = ctx.expect_ok("build", pl.build)
             if mutate != "none":
                 ctx.probe("rebuild_after_mutation")
-            ctx.check(len(second) == len(want) and all(list(g) == list(w) and all(eq(g[k], w[k]) for k in w)
+            ctx.check(len(second) == len(want) and all(sorted(g) == sorted(w) and all(eq(g[k], w[k]) for k in w)
                                                        for g, w in zip(second, want)),
                       "build-not-repeatable", f"{where}: a second build differs (after mutate={mutate})")
             ctx.check(not ({id(g) for g in second} & {id(g) for g in got}), "dicts-shared-between-builds", where)
